@@ -36,40 +36,58 @@ Proof.
   - intros p fi n Hp _. rewrite Hnone in Hp. discriminate Hp.
 Qed.
 
+(** the store a transaction begins with shows nothing at or below a hidden
+    location of the base, and the proper ancestors of such a location as
+    directories ([law_hid_absent], [law_anc_dir] at the initial state) *)
+Lemma initial_loc_ok :
+  forall base Vb Vk tnb tnk accb acck rhb whb hid anc B0,
+  base_laws base Vb Vk tnb accb rhb whb hid anc ->
+  forall w0, initial Vb Vk tnb tnk accb acck B0 w0 -> loc_ok hid anc B0.
+Proof.
+  intros base Vb Vk tnb tnk accb acck rhb whb hid anc B0 HLb w0 (_ & _ & HVb & HwfB & _).
+  split.
+  - intros p Hh. rewrite <- HVb. exact (law_hid_absent _ _ _ _ _ _ _ _ _ HLb w0 p Hh).
+  - intros p Ha. rewrite <- HVb. apply (law_anc_dir _ _ _ _ _ _ _ _ _ HLb w0 p Ha).
+    rewrite HVb. exact HwfB.
+Qed.
+
 (** the invariant is kept along a good run *)
 Lemma good_run_inv :
-  forall base backup Vb Vk tnb tnk accb acck rhb rhk whb whk B0,
-  base_laws base Vb Vk tnb accb rhb whb -> base_laws2 base Vb Vk tnb accb rhb whb ->
+  forall base backup Vb Vk tnb tnk accb acck rhb rhk whb whk hid anc B0,
+  base_laws base Vb Vk tnb accb rhb whb hid anc -> base_laws2 base Vb Vk tnb accb rhb whb ->
   backup_laws backup Vb Vk tnk acck rhk whk ->
   links_ok tnb tnk accb acck B0 -> all_small B0 -> swf B0 ->
   forall w ops w', good_run base backup Vb w ops w' -> Inv Vb Vk B0 w -> Inv Vb Vk B0 w'.
 Proof.
-  intros base backup Vb Vk tnb tnk accb acck rhb rhk whb whk B0 HLb HLb2 HLk Hlinks Hsmall HwfB
+  intros base backup Vb Vk tnb tnk accb acck rhb rhk whb whk hid anc B0 HLb HLb2 HLk Hlinks Hsmall HwfB
          w ops w' Hrun.
   induction Hrun as [w | w o ops r w1 w2 Hcov Hstep Hks Hrest IH]; intros HI.
   - exact HI.
   - apply IH.
-    destruct (step_spec base backup Vb Vk tnb tnk accb acck rhb rhk whb whk B0
+    destruct (step_spec base backup Vb Vk tnb tnk accb acck rhb rhk whb whk hid anc B0
                 HLb HLb2 HLk Hlinks Hsmall HwfB o w HI Hcov) as (r' & w1' & Hstep' & _ & Hinv & _).
     rewrite Hstep in Hstep'. injection Hstep' as Er Ew. subst r' w1'.
     exact (Hinv Hks).
 Qed.
 
 Theorem c01_spec :
-  forall base backup Vb Vk tnb tnk accb acck rhb rhk whb whk B0,
-  c01_stmt base backup Vb Vk tnb tnk accb acck rhb rhk whb whk B0.
+  forall base backup Vb Vk tnb tnk accb acck rhb rhk whb whk hid anc B0,
+  c01_stmt base backup Vb Vk tnb tnk accb acck rhb rhk whb whk hid anc B0.
 Proof.
-  intros base backup Vb Vk tnb tnk accb acck rhb rhk whb whk B0.
+  intros base backup Vb Vk tnb tnk accb acck rhb rhk whb whk hid anc B0.
   unfold c01_stmt. cbv zeta. intros HLb HLb2 HLk Hsmall w0 ops w Hinit Hrun.
   pose proof Hinit as (_ & _ & _ & HwfB & Hlinks & _ & _).
   pose proof (initial_inv_spec Vb Vk tnb tnk accb acck B0 w0 Hinit) as HI0.
-  pose proof (good_run_inv base backup Vb Vk tnb tnk accb acck rhb rhk whb whk B0
+  pose proof (good_run_inv base backup Vb Vk tnb tnk accb acck rhb rhk whb whk hid anc B0
                 HLb HLb2 HLk Hlinks Hsmall HwfB w0 ops w Hrun HI0) as HI.
-  destruct (rollback_spec base backup Vb Vk tnb tnk accb acck rhb rhk whb whk B0
-              HLb HLk Hlinks Hsmall HwfB w HI) as (w' & Hrb & _ & Hb & Hk & Hi).
+  destruct (rollback_spec base backup Vb Vk tnb tnk accb acck rhb rhk whb whk hid anc B0
+              HLb HLk Hlinks Hsmall HwfB
+              (initial_loc_ok base Vb Vk tnb tnk accb acck rhb whb hid anc B0 HLb w0 Hinit) w HI)
+    as (w' & Hrb & _ & Hb & Hk & Hi).
   exists w'. split; [exact Hrb |]. split; [exact Hb |]. split; [exact Hk | exact Hi].
 Qed.
 
 Print Assumptions initial_inv_spec.
+Print Assumptions initial_loc_ok.
 Print Assumptions good_run_inv.
 Print Assumptions c01_spec.
